@@ -136,7 +136,7 @@ def tlc(module, cfg=None, workers=8, simulate=None, depth=None, coverage=True, e
     if not os.path.exists(path):
         raise ToolError("no such spec " + path)
     cfgp = os.path.join(SPEC, (cfg or module) + ".cfg")
-    md = metadir or workdir("tlc", hashlib.md5((module + str(cfg) + str(os.getpid())).encode()).hexdigest()[:10], clean=True)
+    md = metadir or workdir("tlc", hashlib.md5((module + str(cfg) + str(os.getpid()) + str(time.time_ns()) + str(seed_)).encode()).hexdigest()[:12], clean=True)
     jopts = ["-XX:+UseParallelGC", "-Xmx" + xmx, "-DTLA-Library=" + TLA_LIB]
     if xss:
         jopts.append("-Xss" + xss)
